@@ -86,6 +86,30 @@ CLAIMED["C29"] = (
     "Exhaustive model checking of the containment and clear rules for every configuration within the bounds plus conformance of "
     "the real Filer on every one of them, with all filesystem mutations intercepted by a guard that refuses anything outside the "
     "sandbox before it happens.", "3 C29", "")
+CONN = ("TLA+ spec specs/tcp/Conn.tla (per connection: queued/txbs/wire/log, kernel buffer/rxbs/log, cutoff, handshake state; one "
+        "action per call with the kernel's answer to each syscall as parameter; Server pass over several connections)")
+CLAIMED["C09"] = (
+    CONN + ": TLC exhaustive MC of Conservation/RxConservation/LogExact/SendProgress; behaviours (all short + tlc -simulate) executed "
+    "on real Client, ClientTls, Remoter, RemoterTls over scripted fake sockets, every byte of txbs, wire, rxbs and both wire logs "
+    "compared after each step (spec->code)",
+    "Exhaustive model checking of the byte-stream invariants for all partial-send / would-block / short-read / EOF patterns in the "
+    "bounds plus conformance of the four real endpoint classes on every enumerated and on thousands of simulated behaviours.",
+    "3 C09", "")
+CLAIMED["C10"] = (
+    CONN + ": TLC exhaustive MC of NeverRaised/FaultCutsOff/AbortedStays/SiblingUntouched with faults at every send, recv and "
+    "handshake; behaviours with an abstract fault executed on the four real endpoint classes once per concrete errno / SSL EOF "
+    "(spec->code); random executions of real Server and ServerTls with three scripted connections recorded per service() call and "
+    "validated in batch by ConnTrace.tla (code->spec)",
+    "Exhaustive model checking of fault handling within the bounds plus conformance of the real endpoint classes for every listed "
+    "errno at every fault position, and trace validation of hundreds (quick) / thousands of real server executions in which a "
+    "quarter of all syscall answers are faults.", "3 C10", "")
+CLAIMED["C11"] = (
+    "TLA+ spec specs/tcp/Sockets.tla (socket ids, open set, listen slot, pending-handshake and serviceable connections by peer "
+    "address, client socket; accept / replace / handshake ok|pending|aborted / remove / close / reopen / connect ok|wait|refused): "
+    "TLC exhaustive MC of NoOrphan/ClosedIsClosed/ClientSingle; histories executed on real Server, ServerTls and Client whose "
+    "socket module is a registering fake (strong references), open-socket set compared after every event (spec->code)",
+    "Exhaustive model checking of socket ownership for all histories within the bounds plus conformance of the real classes on "
+    "every enumerated and on thousands of simulated histories.", "3 C11", "")
 NA = {
  "C28": "pure value-fidelity of json/cbor2/msgpack + dataclass reflection: no state/transition structure for a TLA+ model to decide (DESIGN.md section 4)",
 }
